@@ -38,7 +38,8 @@ SHIP = {"core": "shipping", "hooked": "hooked-ship", "wasm": "wasm-ship"}      #
 
 def build_harness(kind):
     """kind: 'core' (public API only, no cfg), 'hooked' (--cfg fast_qr_verif), 'wasm' (host build of wasm.rs only), or the
-    shipping twin of one of them ('shipping', 'hooked-ship', 'wasm-ship': no debug assertions, no overflow checks).
+    shipping twin of one of them ('shipping', 'hooked-ship', 'wasm-ship': no debug assertions, no overflow checks), or 'bare'
+    (public API only, the crate compiled WITHOUT its renderer features; only the scenarios that need no renderer exist in it).
     Rebuilds from /repo's tree."""
     os.makedirs(WORK, exist_ok=True)
     lock = open(os.path.join(WORK, f".build-{kind}.lock"), "w")
@@ -48,6 +49,8 @@ def build_harness(kind):
         ship = kind in SHIP.values()
         base = {v: k for k, v in SHIP.items()}.get(kind, kind)
         cmd = ["cargo", "build", "--offline", "--quiet"] + (["--profile", "shipping"] if ship else ["--release"])
+        if base == "bare":        # the crate without its `svg` / `image` features: what a user without a renderer compiles
+            cmd += ["--no-default-features"]
         if base == "hooked":
             env["RUSTFLAGS"] = GUARD_FLAGS
             cmd += ["--features", "hooks"]
